@@ -1548,7 +1548,7 @@ Example ex_big_texts :
                   47; 115; 101; 108; 47; 41].
 Proof. split; reflexivity. Qed.
 
-Ltac wf_compute := vm_compute; repeat (split || constructor || discriminate || (intro; discriminate)).
+Ltac wf_compute := cbn; repeat (split || constructor || discriminate || (intro; discriminate)).
 
 Example ex_big_wf : xwf ex_big1 /\ xwf ex_big2.
 Proof. split; wf_compute. Qed.
